@@ -1,5 +1,16 @@
 (* MODELS: calfile *)
-(* Driver for the extracted loader model CalFile/CalFileModel.v.  Input (stdin), per document:
+(* Driver for the extracted loader model CalFile/CalFileModel.v and saver model CalFile/CalSaveModel.v.
+   Saver: input
+     SAVE <fprecision> <dprecision> <global properties 0|1> <slots>
+     per slot  HOLE  or
+       CAL <hex name> <type> <rows> <cols> <F> <z0 re> <z0 im> <properties 0|1> <terms>
+       F <f> ...                      (numbers are opaque tokens here: the %a texts of the harness dump)
+       T <re>,<im> ...                (one line per term, F entries)
+   output: VLINE <B | N major minor | O major minor>, then the node tree save_doc builds in the format of
+   harness/yamltree.c (M <pairs> / Q <items> / S a <hex text>), END.  Scalars made from values are
+   placeholders: "\001I <n>" (add_integer), "\001R <p> <x>" (add_double), "\001C <p> <re> <im>" (add_complex),
+   "\001N<name>", "\001T<type>", "\001P" (an exported property sub-tree, opaque).
+   Loader: input (stdin), per document:
      DOC <B | N major minor | O major minor> <0|1 = a node tree follows>
      node lines in preorder:
        S <hex text|-> <int|-> <B|N|M|I|P num den> <cx 0|1> <type|-> <keyok 0|1>
@@ -73,12 +84,57 @@ let rec read_node () : M.node =
 let string_of_xfreq = function
   | M.XInf -> "I"
   | M.XQ x -> ZZ.to_string (z_of_coqz x.M.qnum) ^ "/" ^ ZZ.to_string (z_of_pos x.M.qden)
+(* ---- saver *)
+let mk_scalar (text : Stdlib.String.t) : M.scalar =
+  { M.s_text = coq_string_of text 0; M.s_int = None; M.s_real = M.RBad; M.s_cx = false; M.s_type = None; M.s_keyok = false }
+let sc_int (n : M.z) = mk_scalar ("\001I " ^ ZZ.to_string (z_of_coqz n))
+let sc_real (p : M.z) (x : Stdlib.String.t) = mk_scalar ("\001R " ^ ZZ.to_string (z_of_coqz p) ^ " " ^ x)
+let sc_cx (p : M.z) ((a, b) : Stdlib.String.t * Stdlib.String.t) = mk_scalar ("\001C " ^ ZZ.to_string (z_of_coqz p) ^ " " ^ a ^ " " ^ b)
+let sc_name (n : M.string) = mk_scalar ("\001N" ^ ocaml_string_of n)
+let sc_type (t : M.ctype) = mk_scalar ("\001T" ^ ctype_name t)
+let props_node = M.NS (mk_scalar "\001P")
+let rec print_node (n : M.node) =
+  match n with
+  | M.NS s -> Printf.printf "S a %s\n" (hex (ocaml_string_of s.M.s_text))
+  | M.NQ items -> Printf.printf "Q %d\n" (Stdlib.List.length items); Stdlib.List.iter print_node items
+  | M.NM pairs -> Printf.printf "M %d\n" (Stdlib.List.length pairs); Stdlib.List.iter (fun (k, v) -> print_node k; print_node v) pairs
+  | M.NCYC -> print_string "CYCLE\n"
+let read_save (t : Stdlib.String.t array) =
+  let z s = coqz_of_z (ZZ.of_string s) in
+  let nslots = int_of_string t.(4) in
+  let slots = Stdlib.List.init nslots (fun _ ->
+      let l = split (input_line stdin) in
+      if l.(0) = "HOLE" then None
+      else begin
+        let ty = (match ctype_of l.(2) with Some x -> x | None -> failwith "type") in
+        let nterms = int_of_string l.(9) in
+        let fl = split (input_line stdin) in
+        let fvec = Stdlib.List.tl (Array.to_list fl) in
+        let terms = Stdlib.List.init nterms (fun _ ->
+            let tl = split (input_line stdin) in
+            Stdlib.List.map (fun c -> match Stdlib.String.split_on_char ',' c with [a; b] -> (a, b) | _ -> failwith "term")
+              (Stdlib.List.tl (Array.to_list tl))) in
+        Some { M.k_name = coq_string_of (unhex l.(1)) 0; M.k_type = ty; M.k_rows = z l.(3); M.k_cols = z l.(4);
+               M.k_fvec = fvec; M.k_z0 = (l.(6), l.(7)); M.k_props = (if l.(8) = "1" then Some props_node else None);
+               M.k_terms = terms }
+      end) in
+  { M.v_fprec = z t.(1); M.v_dprec = z t.(2); M.v_props = (if t.(3) = "1" then Some props_node else None); M.v_slots = slots }
+let do_save t =
+  let v = read_save t in
+  (match M.save_vline with
+   | M.VBad -> print_string "VLINE B\n"
+   | M.VNew (a, b) -> Printf.printf "VLINE N %s %s\n" (ZZ.to_string (z_of_coqz a)) (ZZ.to_string (z_of_coqz b))
+   | M.VOld (a, b) -> Printf.printf "VLINE O %s %s\n" (ZZ.to_string (z_of_coqz a)) (ZZ.to_string (z_of_coqz b)));
+  print_node (M.save_doc "nan" sc_int sc_real sc_cx sc_name sc_type v);
+  print_string "END\n"; flush stdout
+
 let () =
   try
     while true do
       let line = input_line stdin in
       let t = split line in
-      if Array.length t > 0 && t.(0) = "DOC" then begin
+      if Array.length t > 0 && t.(0) = "SAVE" then do_save t
+      else if Array.length t > 0 && t.(0) = "DOC" then begin
         let z s = coqz_of_z (ZZ.of_string s) in
         let (v, k) = (match t.(1) with
             | "B" -> (M.VBad, 2)
